@@ -100,6 +100,17 @@ def writable (h : Handle) : Except Nat Nat :=
   | none => .error EBADF
   | some i => .ok i
 
+/-- positional write of `data`; offset `u64::MAX` is -1: `EINVAL` from `pwrite`, "use and advance the file
+position" for io_uring (finding C08c) -/
+def writeAtPos (d : Driver) (s : St) (hid : Nat) (h : Handle) (ino pos : Nat) (data : Bytes) : St × String :=
+  if pos = minusOne then
+    match d with
+    | .poll => (s, s!"err {EINVAL}")
+    | .iour =>
+      let s := s.setContent ino (pwrite (s.content ino) h.pos data)
+      (advancePos s hid h true data.length, s!"ok {data.length}")
+  else (s.setContent ino (pwrite (s.content ino) pos data), s!"ok {data.length}")
+
 def pipeLimit : Nat := 32768
 
 def parseBits (s : String) : Option (Bool × Bool × Bool × Bool × Bool) :=
@@ -154,12 +165,10 @@ def stepD (d : Driver) (s : St) (w : List String) : St × String :=
       | none => (s, "nohandle")
       | some hd =>
         if !decide b.wf then (s, "panic") else
-        if pos > writeLimit then (s, "unsupported") else
+        if pos > writeLimit ∧ pos ≠ minusOne then (s, "unsupported") else
         match writable hd with
         | .error e => (s, s!"err {e}")
-        | .ok i =>
-          let data := b.offeredBytes k
-          (s.setContent i (pwrite (s.content i) pos data), s!"ok {data.length}")
+        | .ok i => writeAtPos d s h hd i pos (b.offeredBytes k)
     | _, _, _, _ => (s, "bad-op")
   | ["writev", h, pos, bufs] =>
     match h.toNat?, pos.toNat?, allSome ((listOf bufs).map parseWBuf), kindOf "WriteVectoredAt" d with
@@ -168,12 +177,10 @@ def stepD (d : Driver) (s : St) (w : List String) : St × String :=
       | none => (s, "nohandle")
       | some hd =>
         if !allWf bs then (s, "panic") else
-        if pos > writeLimit then (s, "unsupported") else
+        if pos > writeLimit ∧ pos ≠ minusOne then (s, "unsupported") else
         match writable hd with
         | .error e => (s, s!"err {e}")
-        | .ok i =>
-          let data := offeredBytesVec k bs
-          (s.setContent i (pwrite (s.content i) pos data), s!"ok {data.length}")
+        | .ok i => writeAtPos d s h hd i pos (offeredBytesVec k bs)
     | _, _, _, _ => (s, "bad-op")
   | ["setlen", h, n] =>
     match h.toNat?, n.toNat? with
